@@ -37,10 +37,25 @@ structure Req where
 
 def is2xx (status : Nat) : Bool := 200 ≤ status ∧ status < 300
 
+/-- an accepted non-append request whose body failed after at least one whole chunk, stored as exactly that
+    first chunk inline (what the first-read inline branch of uploadReaderToChunks leaves behind) -/
+def inlineHidesError (q : Req) (now : Option Entry) : Bool :=
+  match q.failAt, now with
+  | some k, some e => !q.isAppend ∧ (q.cs < q.limit ∨ q.etc) ∧ 0 < q.cs ∧ q.cs ≤ k ∧ e.chunks = [] ∧ e.content = q.body.take q.cs
+  | _, _ => false
+
 /-- judge of one write request: `prev`/`now` = the entry at the path before/after, as the implementation shows it -/
 def writeJudge (q : Req) (prev : Option Entry) (status : Nat) (now : Option Entry) : Option String :=
   if q.failAt.isSome then
-    if is2xx status then some "uploadReaderToChunks/read-error-treated-as-eof"
+    if is2xx status then
+      -- the body failed and the request was accepted.  When the FIRST read (one whole chunk, delivered before
+      -- the failure) was taken as the inline content, the loop never read on and never saw the error: that is
+      -- the class of the two …-keeps-first-chunk-only findings (the rest of the body is dropped, its failure
+      -- included).  Every other accepted failing body is a read error treated as EOF.
+      if inlineHidesError q now then
+        (if q.etc then some "uploadReaderToChunks/etc-file-keeps-first-chunk-only"
+         else some "uploadReaderToChunks/inline-limit-above-chunk-size-keeps-first-chunk-only")
+      else some "uploadReaderToChunks/read-error-treated-as-eof"
     else if contentOpt now ≠ contentOpt prev then some "write/failed-request-changed-file"
     else none
   else if !is2xx status then
